@@ -14,13 +14,13 @@ CHECKS = {
  "C02": ("Lean theorem TM.C02_deps_before_start over all runs of the scheduler LTS (any DAG, attributes, max_concurrency, completion order) + VM.C01_core for the values; tied to the code by trace acceptance (TM.next_sound) of real scheduler runs under scripted completion orders and by a direct monitor on every real trace.",
          "6", "invariant proof over scheduler LTS + trace acceptance"),
  "C03": ("Lean theorems C03_start_at_most_once / exactly_once_at_done / only_selected over all runs; tie: trace acceptance + execution counters on every real run.", "6", "invariant proof over scheduler LTS + trace acceptance"),
- "C04": ("Lean theorem C04_inflight_le_maxc (BInv through all 19 step constructors); inline-vs-pooled is in the model, OS thread identity is observed on every real run (partial: runtime fact).", "6", "invariant proof over scheduler LTS + trace acceptance"),
+ "C04": ("Lean theorems C04_inflight_le_maxc (BInv through all 19 step constructors), C04_resource_decides (every start in every run happens where the node's resource says: pool / asyncio-wrapped pool / inline) and C04_in_flight_sets_match_resource; OS thread identity is observed on every real run (partial: runtime fact).", "6", "invariant proof over scheduler LTS + trace acceptance"),
  "C05": ("Lean theorem C05_sequential_exclusive (SInv); tie: trace acceptance + interval-overlap monitor on real enter/exit events with adversarially late completions.", "6", "invariant proof over scheduler LTS + trace acceptance"),
  "C06": ("Lean theorem C06_best_ready (ready set stated independently of the scheduler's runnable variable) with the model fed the *documented* compound priority (GM.C07_cp_is_own_plus_distinct_descendants), so a wrong or lost table is a rejected dispatch; monitor on every real start.", "6", "invariant proof + trace acceptance with specified priorities"),
  "C07": ("Lean theorems: cpAll = own + sum over any duplicate-free enumeration of the reachable set (order/hash independent), descendants = reachability; differential run of the real tables (whole DAG, after config_from_dict, executors) against the Lean definition, fresh processes under several PYTHONHASHSEEDs, unique max_concurrency=1 order.", "7", "proof of graph functions + differential testing"),
  "C08": ("Lean C08_partial (single pooled kind) proved over all runs; full statement refuted in the model by C08_mixed_witness, which is the recorded known finding (mixed thread/async-thread second wait). Monitor evaluates the statement at every real blocking call; any other signature is a violation.", "6", "invariant proof (partial) + machine-checked counter-witness + monitor"),
  "C09": ("Lean C09_bound (every run has length <= 32*|nodes|+12: no infinite execution, via a measure through all step constructors and a decide-checked finite abstraction for silent steps) and C09_progress (no reachable live state is stuck, every admissible completion set is enabled); tie: trace acceptance, watchdog on every real run. Partial: blocking primitives returning is the stdlib's contract.", "6", "termination measure + progress proof + trace acceptance"),
- "C12": ("Lean C12_closure and selectNodes_spec: the executable three-step selection (the function compared with make_subgraph on every run) equals the documented closure; differential runs over random graphs/selections/alias forms, returned values and execution counters.", "7", "proof of graph functions + differential testing"),
+ "C12": ("Lean C12_closure and selectNodes_spec: the executable three-step selection (the function compared with make_subgraph on every run) equals the documented closure; alias forms are in the model too (GM.resolveAlias / resolveAll: node reference, string as tag first then id, unknown refused — C12_alias_tag_wins, C12_alias_id, C12_alias_unknown_refused, C12_alias_list_is_union) and every generated selection reaches the Lean driver as aliases, not as pre-resolved node sets; differential runs over random graphs/selections/alias forms, returned values and execution counters.", "7", "proof of graph functions + differential testing"),
  "C13": ("Lean C13_flag_off_no_debug and C13_pulled_debug_has_inputs about the executable debug extension compared with the real executor graphs for both flag values; monitors on every selection; value equality on/off.", "7", "proof of graph functions + differential testing"),
  "C14": ("Lean C14_err_terminal / err_is_node_failure / no_dependent_of_failed over all runs (failing nodes adversarial); tie: trace acceptance with strict treatment of exceptions (an exception that is not a node failure is rejected), monitor on message, location and cause. Partial: message formatting checked, not proved.", "6", "invariant proof over scheduler LTS + trace acceptance"),
  "C01": ("Lean theorems VM.C01_core (schedule independence: every returning run of the scheduler LTS with values computes the sequential denotation, for every attribute assignment and max_concurrency) and tracer correctness: VM.C01_flat (flat fragment) VM.C20_nested_inlining (modules with nested calls at any depth, defaults, argument stubs, unpack_to, flags on plain calls) and VM.C20_nested_inlining_flags (the same WITH activation flags on nested calls, for every module satisfying the decidable predicate FlagSafe = each flagged nested call targets a callee returning only whole results of its own nodes and using no unpack_to; the driver evaluates flagSafeB on every generated module) — PARTIAL only outside FlagSafe, where the code departs from inlining: the two known findings, proved as model theorems C20_flag_witness_default / C20_flag_witness_indexed and replayed on the code. Tied by the four-way differential run (CPython oracle, real tawazi under random configurations / flavours / config reloads / scripted completion orders, Lean plain evaluation, Lean tracer+denotation) and a directed enumeration of argument-passing forms.", "7", "proof (core + flat fragment) + four-way differential testing"),
@@ -30,7 +30,7 @@ CHECKS = {
  "C15": ("Lean theorems runHistory_res_nonsetup / applyOp_res_nonsetup (an instance only ever gains setup results, failing operations included) so a call's outcome is a function of (table, setup results, own arguments); tie: histories with different argument tuples, failing calls, executors, compose, config reloads; executor re-runs after success and after failure must be refused or complete.", "7", "induction over histories + differential testing"),
  "C18": ("Lean theorem VM.C18_restart_same (a run seeded with cached values computes the same results and its execution graph excludes the cached nodes); tie: (caching run, restart) pairs over whole DAG / target nodes / cache_deps_of with execution counters and pickle key sets. Partial: pickle round-trip trusted.", "7", "proof over denotation + differential testing"),
  "C16": ("Lean theorem TH.C16_owner_safe: under EVERY interleaving of well-bracketed thread programs (builds, decorated-function calls outside a DAG, calls of shared DAGs) each thread observes a prefix of what it observes alone, for the owner-aware description-context test the code now uses; TH.C16_pinned_witness is the machine-checked counterexample for the test the pinned code used. Tie: real threads forced through scripted interleavings (random + every interleaving of small programs) compared with the model and with solo observations; overlapping runs of one shared DAG with distinct arguments. Partial: atomicity assumed at API-segment granularity.", "7", "invariant proof over all interleavings + scripted real-thread interleavings"),
- "C17": ("(a) both flavours run the same coroutine: same programs executed in both flavours must agree (value or error) under random configurations and scripted completion orders; (b) asyncio.gather of 2-8 concurrent awaits with distinct arguments under scripted completion orders, each must return its own result (per-execution state is a private copy: VM.C01_core applies to each execution separately); (c) Lean TM.C17c_partial: without thread-resource nodes the scheduler never executes a loop-blocking wait; TM.C17c_mixed_witness refutes it for mixed resources = recorded known finding. Partial: the non-interference product theorem for (b) is not mechanised; event-loop fairness trusted.", "7", "proof (liveness partial) + differential/flavour testing"),
+ "C17": ("(a) Lean VM.C17a_flavours_agree: both flavours run the same scheduler over the same table, so any two returning executions (any attributes, max_concurrency, completion orders) hold the same result on every node and started the same nodes once each; tie: the same programs executed in both flavours must agree (value or error) under random configurations and scripted completion orders; (b) Lean VM.C17b_concurrent_awaits_isolated (prun_proj: any interleaving of k executions, each on its private copy of the results, computes each one's own denotation); tie: asyncio.gather of 2-8 concurrent awaits with distinct arguments (cold setup nodes included) under scripted completion orders; (c) Lean TM.C17c_partial: without thread-resource nodes the scheduler never executes a loop-blocking wait; TM.C17c_mixed_witness refutes it for mixed resources = recorded known finding. Partial: event-loop fairness itself is trusted (runtime), liveness is observed by a heartbeat coroutine.", "7", "proof (liveness partial) + differential/flavour testing"),
  "C19": ("Lean theorem VM.C19_compose_correct: for every well-formed table, inputs, outputs and supplied values the composed table (inputs become holders of the supplied values; restriction to what the outputs need, proved dependency-closed) returns for every output what the original pipeline computes with those values; the original table is untouched (pure function). Tie: real composed DAGs vs the Lean table-level model and an independent Python oracle on random and (thorough) exhaustive (inputs, outputs) pairs, keyword/indexed uses, alias forms, Ellipsis, error cases; original probed before/after. Out of scope: an output that is also an input (refused/ambiguous by an existing test).", "7", "proof over denotation (restriction theorem) + differential testing"),
 }
 
